@@ -219,15 +219,18 @@ func (e *Encoder) writeValue(val reflect.Value, tagType byte) error {
 
 	case TagString:
 		var str []byte
+		var tm encoding.TextMarshaler
 		if val.NumMethod() > 0 && val.CanInterface() {
-			if t, ok := val.Interface().(encoding.TextMarshaler); ok {
-				var err error
-				str, err = t.MarshalText()
-				if err != nil {
-					return err
-				}
+			tm, _ = val.Interface().(encoding.TextMarshaler)
+		}
+		if tm != nil {
+			var err error
+			str, err = tm.MarshalText()
+			if err != nil {
+				return err
 			}
 		} else {
+			// a string type may have methods without being a TextMarshaler
 			str = []byte(val.String())
 		}
 		if len(str) > math.MaxInt16 {
